@@ -219,6 +219,13 @@ impl Check for C11 {
         };
         json!({ "ring": ring, "a": a, "ptype": ptype, "cond": cond, "w": w })
     }
+    fn tune_cfg(&self, _rng: &mut Rng, case: &Value, cfg: &mut SimCfg) {
+        // the step bound is a livelock detector, not a performance bound: code that splits a scan
+        // over a thousand columns into items legitimately takes a scheduling point per item
+        if case["a"]["m"].as_u64().unwrap().max(case["a"]["n"].as_u64().unwrap()) >= 1000 {
+            cfg.max_steps = cfg.max_steps.max(5_000_000);
+        }
+    }
     fn run_case(&self, case: &Value, ex: &mut Executor) -> RunReport {
         let ring = case["ring"].as_str().unwrap();
         crate::dispatch_ring!(ring, run_typed, case, ex)
